@@ -234,12 +234,16 @@ CLAIMED['C07'] = {
             'regenerated on each run, that the shipped configuration is such an environment (three maps are outside map_ok and '
             'named). Built from C07_driver_total (sinks off), C07_walker_total, C07_validation_total, the error-handler cursor and '
             'heap invariants, the error-iterator fuel bound and the reader totality theorem. The premise plain_delims is shown '
-            'necessary (C07_letter_terminator_raises, a recorded finding). Not proved: totality of the context reader — checked on '
-            'the implementation against the CtxReader model. The check runs generated documents, structural mutations and arbitrary '
-            'strings under all 8 sink subsets, with the whole-pipeline model compared on every run.',
+            'necessary (C07_letter_terminator_raises, a recorded finding). Context reader: C07_context_reader_total (computable '
+            'per-map condition cenv_ok for the requested loop id; heap well-formedness invariant over the tree builder) and '
+            'C07_shipped_context_reader_total: on the shipped maps iter_segments completes or raises X12Error / EngineError for '
+            'EVERY loop id except DETAIL, TABLE2AREA2, TABLE2AREA3 — loops that begin with a loop, where AttributeError escapes '
+            '(C07_context_reader_wrapper_loop_raises, a recorded finding). The check runs generated documents, structural '
+            'mutations, envelope soups and arbitrary strings under all 8 sink subsets, plain reading and context-reader iteration '
+            'for 7 loop ids, with the whole-pipeline model compared on every run.',
     'design_ref': 'DESIGN.md §6 C07, §11',
     'note': 'Trusted: Coq kernel (vm_compute for per-map facts); hand transcriptions Driver/Walker/Element/Errh/Reader/Raw/Pipeline/'
-            'ErrIter/Html/XmlOut/Ack997/Ack999; tools/gen/maps.py; extraction. Context reader: oracle + correspondence only.',
+            'ErrIter/Html/XmlOut/Ack997/Ack999/Context/CtxReader; tools/gen/maps.py; extraction.',
     'technique': 'Coq proof (Hoare-style safety over the driver and pipeline monads with error-handler cursor and heap invariants; per-map facts by vm_compute) + extracted-model correspondence + oracle',
 }
 CLAIMED['C05'] = {
